@@ -8,7 +8,8 @@ Space (enumerated completely, nothing sampled):
   F  reals  the same mantissas at exponents -8..12 rendered by render_F with 0..8 decimals (plus sign, leading zero);
   I  integers 0, +-10^(k-1), +-(10^k - 1), +-123..k for k = 1..9, with and without '+', with EVERY subset of gaps
             holding a blank, and padded to width 20;
-  S  every string of length <= 5 (quick: <= 4) over the 18-letter alphabet 019.+-eEdD' '*anif_x, to both readers;
+  E2 every E-text of a boundary exponent set with a blank in every PAIR of gaps;
+  S  every string of length <= 6 (quick: <= 5) over the 18-letter alphabet 019.+-eEdD' '*anif_x, to both readers;
   R  every E-text of a boundary value set with one character replaced by every alphabet letter (thorough: every
             printable ASCII character) at every position, to both readers;
   B  blank fields of width 0..20 x blank values, overflow asterisks of width 1..20, NaN / Infinity as Fortran prints them.
@@ -25,6 +26,10 @@ Space (enumerated completely, nothing sampled):
      first and the last result set, with Fortran renderings of the step (digits, sign, blanks, overflow asterisks) and of
      the time: the listing must open and step / time at that result set must be what fortran_int / fortran_float give
      for the field texts (quick: one field varied at a time; thorough: crossed).
+  P  caller history: the same text read by every reader entry point (43: each blank value, the partials, the default
+     readers, every entry of both dictionaries and of a third table, parse_string through parsers of 4 format tables x 3
+     reader tables, t2incon(filename) x 3, t2historyfile, the listing table line) in every order of two callers (one
+     forked child per first caller): each caller gives its own answer, and the same answer every time.
 Oracle: ref/c16ref.judge_real / judge_int (the property statement; large don't-care class for malformed text).
 """
 import contextlib
@@ -43,10 +48,10 @@ EXHAUSTIVE = True
 RULE = ('reals: every (sign, decimal exponent, mantissa length 1..17, digit pattern 123../99..) x every distinct E-style text '
         '(4 letters x 2 scales x leading zero x plus x blank-for-plus x dropped letter) x blank placements (every single gap, '
         'field padding, combined), F-style texts with 0..8 decimals; integers at every digit-count boundary 1..9 digits x every '
-        'subset of gaps blanked; every string over the 18-letter alphabet up to the length bound; every one-character '
+        'subset of gaps blanked; boundary E-texts with every pair of gaps blanked; every string over the 18-letter alphabet up to the length bound; every one-character '
         'replacement of the boundary E-texts; blank fields and overflow fields of every width 0..20. A case is one text '
         'handed to one reader; file route: each text in each variable position / as last value of a line of an incon file, '
-        'read by plain-reader and Fortran-reader objects in both orders within one process; distinct = distinct (reader, text without its blank padding variants); non-trivial = the '
+        'read by plain-reader and Fortran-reader objects in both orders within one process; caller history: every ordered pair of 43 reader entry points on the same texts, each first caller in a fresh forked child; distinct = distinct (reader, text without its blank padding variants); non-trivial = the '
         'statement fixes the result (value, NaN/None or blank value), i.e. not in the don\'t-care class')
 ASSUMPTIONS = ['only text (str) is handed to the readers; blank means the space character',
                'reference value of a text is ref/fortnum.parse_real / parse_int: blanks ignored (BN editing), exact decimal '
@@ -64,12 +69,16 @@ SUBST_LEN = {'quick': [1, 2, 17], 'thorough': [1, 2, 9, 16, 17]}
 BOUNDS = {'quick': {'file_route': 'E-texts of exponents [-100, 0, 300] x lengths [1, 7] that fit the field + zeros/asterisks/ints; 2 orders',
                     'E_exponents': 'boundary set of %d decimal exponents in -300..300' % len(QUICK_EXP),
                     'E_blank_placements': 'every single gap + padding + combined',
-                    'strings': 'all of length <= 4 over 18 letters',
+                    'strings': 'all of length <= 5 over 18 letters',
+                    'E_two_blanks': 'every pair of gaps (same gap included) of every E-text of exponents %r x mantissa lengths %r' % ([-300, -100, -99, 0, 99, 100, 300], [1, 2, 7, 17]),
+                    'caller_history': '43 reader entry points (each blank value, partials, both dictionaries + a third table, parse_string x 4 format tables x 3 reader tables, t2incon(filename) x 3, t2historyfile, listing table line) x every ordered pair, one forked child per first caller; texts: blanks of 8 widths, zeros, boundary forms, every 7th file-route text',
                     'replacement_letters': '18-letter alphabet', 'replacement_base': 'exponents %r x lengths %r' % (SUBST_EXP['quick'], SUBST_LEN['quick'])},
           'thorough': {'file_route': 'E-texts of 9 boundary exponents x lengths [1, 7] that fit the field + zeros/asterisks/ints; 2 orders',
                        'E_exponents': 'all 601 decimal exponents -300..300',
                        'E_blank_placements': 'every single gap + padding + combined',
-                       'strings': 'all of length <= 5 over 18 letters',
+                       'strings': 'all of length <= 6 over 18 letters',
+                       'E_two_blanks': 'every pair of gaps (same gap included) of every E-text of the %d boundary exponents x mantissa lengths 1..17' % len(QUICK_EXP),
+                       'caller_history': '43 reader entry points x every ordered pair, one forked child per first caller; texts: blanks of widths 0..24, zeros, boundary forms, every file-route text of the thorough tier',
                        'replacement_letters': '95 printable ASCII characters',
                        'replacement_base': 'exponents %r x lengths %r' % (SUBST_EXP['thorough'], SUBST_LEN['thorough'])}}
 
@@ -77,10 +86,10 @@ TECHNIQUE = ('bounded exhaustive enumeration of printed-number forms and of all 
              'reference Fortran number grammar')
 LEVEL_TEXT = ('Every Fortran output style of every (sign, exponent -300..300, 1..17 digits) real and of every digit-count boundary '
               'integer, with blanks in every position, every string up to length 5 over an 18-letter alphabet chosen to hit '
-              'each branch of the fallback cascade, and every one-character corruption of the boundary renderings are handed '
+              'each branch of the fallback cascade (length 6 in the thorough tier), and every one-character corruption of the boundary renderings are handed '
               'to the real fortran_float / fortran_int; nothing is sampled.')
 LEVEL_NOTE = ('Trusted: ref/fortnum.py grammar and renderers. Mantissa digit patterns are two (123.. and 99..); strings longer '
-              'than 5 are covered only as renderings and their one-character replacements; malformed text has a don\'t-care result.')
+              'than 6 (quick 5) are covered only as renderings and their one-character replacements; malformed text has a don\'t-care result.')
 
 
 class _Sentinel(object):
@@ -113,10 +122,15 @@ def units(tier):
     us.append(('S', 0, ''))            # lengths 0..3
     for c in R.ALPHABET:
         us.append(('S', 4, c))
+    for a in R.ALPHABET:
+        for b in R.ALPHABET:
+            us.append(('S', 5, a + b))
     if tier == 'thorough':
         for a in R.ALPHABET:
             for b in R.ALPHABET:
-                us.append(('S', 5, a + b))
+                us.append(('S', 6, a + b))
+    for e in GAP2_EXP[tier]:
+        us.append(('E2', e))
     for e in SUBST_EXP[tier]:
         for n in SUBST_LEN[tier]:
             us.append(('R', e, n))
@@ -130,6 +144,8 @@ def units(tier):
     for which_set in ('first', 'last'):
         us.append(('H', which_set))
     us.append(('HF',))
+    for first in _PAIR_NAMES:
+        us.append(('P', first))
     return us
 
 
@@ -314,6 +330,27 @@ def run_E(exps, tier, rec):
     c = R.e_renderings(float('-0.%se%d' % (R.MANT12[:5], exps[0])), 5)[-1]
     t = R.blank_variants(c, 20)[3]
     rec.sample({'text': t, 'fortran_float': repr(fns()['fortran_float'](t)), 'reference': repr(fortnum.parse_real(t)[0])})
+
+
+GAP2_EXP = {'quick': [-300, -100, -99, 0, 99, 100, 300], 'thorough': QUICK_EXP}
+GAP2_LEN = {'quick': [1, 2, 7, 17], 'thorough': list(range(1, 18))}
+
+
+def run_E2(e, tier, rec):
+    """Every E-text of one exponent with a blank in every PAIR of gaps (the two blanks may share a gap)."""
+    n = ncores = 0
+    keys = set()
+    for sign, digs, ex, value in R.real_values([e], GAP2_LEN[tier]):
+        for c in R.e_renderings(value, len(digs)):
+            want = fortnum.parse_real(c)[0]
+            ncores += 1
+            keys.add(hash(('E2', c)))
+            L = len(c)
+            variants = [c[:i] + ' ' + c[i:j] + ' ' + c[j:] for i in range(L + 1) for j in range(i, L + 1)]
+            n += rendered_text_loop(rec, 'fortran_float', c, want, variants, True)
+    rec.bulk(n, keys, outcome='val')
+    rec.count('E_texts_with_two_blanks', n)
+    rec.count('E_texts_base_of_two_blanks', ncores)
 
 
 def run_F(tier, rec):
@@ -916,6 +953,370 @@ def run_TE(ending, tier, rec):
 
 
 # ---------------------------------------------------------------------------------------------------------
+# P: history over callers.  The SAME text is read by every reader entry point - fortran_float / fortran_int with each
+# blank value (default, None, an own object, a number by keyword), the partials fortran_read_float / fortran_read_int
+# (also with the blank value overridden), default_read_float / default_read_int, each float / integer entry of the two
+# read-function dictionaries and of a third table built by read_function_dict, parse_string through parser objects of
+# every (format table, read-function table) pair (an own one-field table, t2incon's, t2data's, mulgrid's), t2incon(filename)
+# with each reader table, t2listing's own call sites (comma-separated history file, fixed-column table line) - in every
+# ORDER of two callers: one forked child per first caller A runs A, B1, A, B2, A, ... over all texts, so that every
+# caller B reads each text directly after A whatever a memo keeps (the first answer or the last), and A after every B.
+# Oracle (absolute, a correct cache passes it): every caller gives ITS OWN answer - the Fortran readers the statement's
+# value / NaN / None and for a blank field the very blank value THIS caller passed; the plain readers what float() /
+# int() give, else None - and gives it again every time it is asked (repeatability, also for don't-care texts).
+
+PAIR_BLANKS = [0, 1, 4, 5, 10, 15, 20, 24]
+
+
+def pair_texts(tier):
+    out, seen = [], set()
+
+    def put(t):
+        if t not in seen and len(t) <= 24 and ',' not in t:
+            seen.add(t)
+            out.append(t)
+
+    for w in (PAIR_BLANKS if tier == 'quick' else range(0, 25)):
+        put(' ' * w)
+    for t in ZEROS:
+        put(t)
+    for t in ('0.1D+01', ' 0.25d-03', '.25-101', '1.5+100', '0.1E 05', '- 0.1234-100', '+0.3+100', '-.1234D-05', '1.5', ' 1.5 ',
+              '12', ' 1 2', '- 7', '+7', '-0', '7', '    3', '1 2 3', '99999', '*', '*****', '*' * 15, '*' * 20, 'NaN', 'Infinity',
+              '-Inf', '1x', '1_0', '1e5', '1d5', '0.5e', '--1', '1.5.', 'e', '+', '.', '0.1000000E+00', '-0.9999999999999E-99',
+              '0.1000000000000E+06', '12.'):
+        put(t)
+    if tier == 'thorough':
+        for t in file_texts('thorough', 20):
+            put(t)
+        for t in int_texts():
+            put(t)
+    else:
+        for t in file_texts('quick', 20)[::7]:
+            put(t)
+    return out
+
+
+class _Obj(object):
+    def __init__(self, name):
+        self.name = name
+
+    def __repr__(self):
+        return '<%s>' % self.name
+
+
+def blank_matches(got, bv):
+    if bv is None or isinstance(bv, (_Obj, _Sentinel)):
+        return got is bv
+    if isinstance(bv, float):
+        return type(got) is float and got == bv and math.copysign(1, got) == math.copysign(1, bv)
+    return type(got) is type(bv) and got == bv
+
+
+def judge_caller(real, mode, bv, s, got):
+    """-> None or (clause, expected) for the answer of one caller (mode 'fortran' with blank value bv, or 'plain')."""
+    if mode == 'plain':
+        try:
+            want = float(s) if real else int(s)
+        except ValueError:
+            return None if got is None else ('plain-none', 'None')
+        if real:
+            return None if R.same_float(got, want) else ('plain-value', repr(want))
+        return None if (type(got) is int and got == want) else ('plain-value', repr(want))
+    cls = (R.expect_real if real else R.expect_int)(s)[0]
+    if cls == R.BLANK:
+        return None if blank_matches(got, bv) else ('blank-value', 'the blank value %r of this caller' % (bv,))
+    if isinstance(bv, (_Obj, _Sentinel)) and got is bv:
+        return ('blank-value-for-text', 'not the blank value')
+    return (R.judge_real if real else R.judge_int)(s, got, _Never)
+
+
+def pair_files(tier, d):
+    """Files the file-reading callers use (written once, before any child is forked).  -> dict"""
+    texts = pair_texts(tier)
+    a = 'abcdefghijklmnopqrstuvwxyz'
+    lines, roles = ['INCON'], []
+
+    def add(role, t, vars_, por='', nseq='', nadd=''):
+        i = len(roles)
+        name = a[(i // 2600) % 26] + a[(i // 100) % 26] + 'p' + '%2d' % (i % 100)
+        lines.append(name + nseq.rjust(5) + nadd.rjust(5) + por.rjust(15))
+        lines.append(''.join(v.rjust(20) for v in vars_))
+        roles.append((role, t))
+
+    for t in texts:
+        if len(t) <= 20:
+            add('var', t, [t, FILLER[1]])
+        if len(t) <= 15:
+            add('por', t, FILLER[:2], por=t)
+        if len(t) <= 5:
+            add('nseq', t, FILLER[:1], por='0.1000000E+00', nseq=t, nadd='1')
+    lines.append('')
+    incon = os.path.join(d, 'c16_pair.incon')
+    with open(incon, 'w') as f:
+        f.write('\n'.join(lines) + '\n')
+    hd = os.path.join(d, 'c16_pair_hist')
+    os.makedirs(hd, exist_ok=True)
+    hist = os.path.join(hd, 'FOFT')
+    htexts = [t for t in texts if len(t) <= 20]
+    recs = [list(HF_FILL) + list(HF_FILL)] + [[t] + HF_FILL[1:] + list(HF_FILL) for t in htexts]
+    with open(hist, 'w') as f:
+        for k, vals in enumerate(recs):
+            f.write('%6d, %s,%8d,%s,%8d,%s,\n' % (k + 1, '%.6E' % (10.0 * (k + 1)), 3, ','.join(vals[:3]), 17, ','.join(vals[3:])))
+    empty = os.path.join(d, 'c16_pair_empty.dat')
+    with open(empty, 'w') as f:
+        f.write('\n')
+    return {'incon': incon, 'roles': roles, 'hist': hist, 'htexts': htexts, 'empty': empty, 'texts': texts}
+
+
+def make_callers(files):
+    """-> list of dict(name, family, batch) ; batch() -> list of (real?, mode, blank value, cell text, ('ok', got) | ('raised', e))."""
+    from functools import partial
+    import fixed_format_file as fff
+    import t2incons
+    import t2data
+    import mulgrids
+    import t2listing
+    texts = files['texts']
+    callers = []
+
+    def guarded(f, *a, **k):
+        try:
+            return ('ok', f(*a, **k))
+        except core.CaseTimeout:
+            raise
+        except BaseException as e:
+            if isinstance(e, (KeyboardInterrupt, SystemExit)):
+                raise
+            return ('raised', e)
+
+    def direct(name, family, real, mode, bv, f):
+        def batch():
+            return [(real, mode, bv, s, guarded(f, s)) for s in texts]
+        callers.append({'name': name, 'family': family, 'batch': batch})
+
+    OWN_F, OWN_I, KW_F, KW_I = _Obj('own-float-blank'), _Obj('own-int-blank'), -1.5, -9
+    ff, fi = fff.fortran_float, fff.fortran_int
+    direct('fortran_float(s)', 'fortran-blank-0', True, 'fortran', 0.0, lambda s: ff(s))
+    direct('fortran_float(s,None)', 'fortran-blank-None', True, 'fortran', None, lambda s: ff(s, None))
+    direct('fortran_float(s,object)', 'fortran-blank-other', True, 'fortran', OWN_F, lambda s: ff(s, OWN_F))
+    direct('fortran_float(s,blank_value=-1.5)', 'fortran-blank-other', True, 'fortran', KW_F, lambda s: ff(s, blank_value=KW_F))
+    direct('fortran_int(s)', 'fortran-blank-0', False, 'fortran', 0, lambda s: fi(s))
+    direct('fortran_int(s,None)', 'fortran-blank-None', False, 'fortran', None, lambda s: fi(s, None))
+    direct('fortran_int(s,object)', 'fortran-blank-other', False, 'fortran', OWN_I, lambda s: fi(s, OWN_I))
+    direct('fortran_int(s,blank_value=-9)', 'fortran-blank-other', False, 'fortran', KW_I, lambda s: fi(s, blank_value=KW_I))
+    direct('fortran_read_float', 'fortran-blank-None', True, 'fortran', None, fff.fortran_read_float)
+    direct('fortran_read_int', 'fortran-blank-None', False, 'fortran', None, fff.fortran_read_int)
+    direct('fortran_read_float(blank_value=2.5)', 'fortran-blank-other', True, 'fortran', 2.5,
+           lambda s: fff.fortran_read_float(s, blank_value=2.5))
+    direct('fortran_read_int(blank_value=3)', 'fortran-blank-other', False, 'fortran', 3,
+           lambda s: fff.fortran_read_int(s, blank_value=3))
+    direct('default_read_float', 'plain', True, 'plain', None, fff.default_read_float)
+    direct('default_read_int', 'plain', False, 'plain', None, fff.default_read_int)
+    CUST_F, CUST_I = _Obj('third-table-float-blank'), _Obj('third-table-int-blank')
+    third = fff.read_function_dict(partial(ff, blank_value=CUST_F), partial(fi, blank_value=CUST_I))
+    tables = [('default', fff.default_read_function, 'plain', None, None, 'plain'),
+              ('fortran', fff.fortran_read_function, 'fortran', None, None, 'fortran-blank-None'),
+              ('third', third, 'fortran', CUST_F, CUST_I, 'fortran-blank-other')]
+    for tn, table, mode, bvf, bvi, family in tables:
+        for typ in 'efg':
+            direct("%s_read_function[%r]" % (tn, typ), family, True, mode, bvf, table[typ])
+        direct("%s_read_function['d']" % tn, family, False, mode, bvi, table['d'])
+
+    # parse_string through parser objects of every (format table, read-function table) pair, all alive at once
+    own_spec = {'r': [['v'], ['24.16e']], 'i': [['v'], ['24d']], 'f': [['u', 'v'], ['5x', '24.10f']]}
+    specs = [('own', fff.fixed_format_file, own_spec),
+             ('t2incon', fff.fixed_format_file, t2incons.t2incon_format_specification),
+             ('t2data', fff.fixed_format_file, t2data.t2data_format_specification),
+             ('mulgrid', fff.fixed_format_file, mulgrids.mulgrid_format_specification)]
+    _KEEP.append(own_spec)
+    for sn, cls_, spec in specs:
+        for tn, table, mode, bvf, bvi, family in tables:
+            prs = cls_(files['empty'], 'r', spec, table)
+            _KEEP.append(prs)
+
+            def batch(prs=prs, sn=sn, mode=mode, bvf=bvf, bvi=bvi):
+                out = []
+                for s in texts:
+                    if sn == 'own':
+                        jobs = [(True, 'r', s, 0, s), (False, 'i', s, 0, s), (True, 'f', ' ' * 5 + s, 1, s)]
+                    elif sn == 't2incon':
+                        jobs = []
+                        if len(s) <= 20:
+                            for p in (0, 3):
+                                cells = list(FILLER)
+                                cells[p] = s
+                                jobs.append((True, 'incon2', ''.join(c.rjust(20) for c in cells), p, s.rjust(20)))
+                        if len(s) <= 15:
+                            jobs.append((True, 'incon1', 'aa  1' + '    1' + '    1' + s.rjust(15), 3, s.rjust(15)))
+                        if len(s) <= 5:
+                            jobs.append((False, 'incon1', 'aa  1' + s.rjust(5) + '    1' + '  0.1000000E+00', 1, s.rjust(5)))
+                    elif sn == 't2data':
+                        jobs = []
+                        if len(s) <= 20:
+                            jobs.append((True, 'default_incons', FILLER[0].rjust(20) + s.rjust(20), 1, s.rjust(20)))
+                        if len(s) <= 10:
+                            jobs.append((True, 'timestep', '0.1000E+01' + s.ljust(10) + '0.3000E+01', 1, s.ljust(10)))
+                    else:
+                        jobs = [(True, 'node', 'abc' + s.rjust(10) + '     12.50', 1, s.rjust(10))] if len(s) <= 10 else []
+                    for real, kind, line, idx, cell in jobs:
+                        r = guarded(prs.parse_string, line, kind)
+                        if r[0] == 'ok':
+                            try:
+                                r = ('ok', r[1][idx])
+                            except Exception as e:
+                                r = ('raised', e)
+                        out.append((real, mode, bvf if real else bvi, cell, r))
+                return out
+            callers.append({'name': 'parse_string(%s table,%s readers)' % (sn, tn), 'family': family, 'batch': batch})
+
+    # t2incon(filename) with each reader table and with its default argument
+    for tn, kw, mode, family in (('default', {'read_function': fff.default_read_function}, 'plain', 'plain'),
+                                 ('fortran', {'read_function': fff.fortran_read_function}, 'fortran', 'fortran-blank-None'),
+                                 ('default-argument', {}, 'fortran', 'fortran-blank-None')):
+        def batch(kw=kw, mode=mode):
+            def read():
+                with core.timelimit(CHILD_LIMIT):
+                    with contextlib.redirect_stdout(io.StringIO()):
+                        return t2incons.t2incon(files['incon'], **kw)
+            r = guarded(read)
+            roles = files['roles']
+            if r[0] != 'ok':
+                return [(True, mode, None, 'whole file', r)]
+            bl = r[1]._blocklist
+            if len(bl) != len(roles):
+                return [(True, mode, None, 'whole file', ('raised', ValueError('%d blocks read, file has %d' % (len(bl), len(roles)))))]
+            out = []
+            for blk, (role, t) in zip(bl, roles):
+                if role == 'var':
+                    v = list(blk.variable)
+                    out.append((True, mode, None, t.rjust(20), ('ok', v[0]) if len(v) == 2 else
+                                ('raised', ValueError('%d variables read from a line of 2' % len(v)))))
+                elif role == 'por':
+                    out.append((True, mode, None, t.rjust(15), ('ok', blk.porosity)))
+                else:
+                    out.append((False, mode, None, t.rjust(5), ('ok', blk.nseq)))
+            return out
+        callers.append({'name': 't2incon(filename,%s)' % tn, 'family': family, 'batch': batch})
+
+    # t2listing's own call sites: comma-separated history file; fixed-column table line
+    def batch_hist():
+        def read():
+            with core.timelimit(CHILD_LIMIT):
+                with contextlib.redirect_stdout(io.StringIO()):
+                    h = t2listing.t2historyfile(files['hist'])
+                    return [list(row) for row in h._data]
+        r = guarded(read)
+        ht = files['htexts']
+        if r[0] != 'ok':
+            return [(True, 'fortran', 0.0, 'whole file', r)]
+        rows = r[1]
+        if len(rows) != 2 * (len(ht) + 1):
+            return [(True, 'fortran', 0.0, 'whole file', ('raised', ValueError('%d rows read, %d printed' % (len(rows), 2 * (len(ht) + 1)))))]
+        return [(True, 'fortran', 0.0, t, guarded(lambda x: float(x), rows[2 * (k + 1)][1])) for k, t in enumerate(ht)]
+    callers.append({'name': 't2historyfile(FOFT)', 'family': 'fortran-blank-0', 'batch': batch_hist})
+
+    bare = object.__new__(t2listing.t2listing)
+
+    def batch_line():
+        out = []
+        fmt = {'values': [5, 29, 49]}
+        for s in texts:
+            line = 'abc 1' + s.rjust(24) + FILLER[0].rjust(20)
+            r = guarded(bare.read_table_line_TOUGH2, line, 2, fmt)
+            if r[0] == 'ok':
+                try:
+                    r = ('ok', r[1][0])
+                except Exception as e:
+                    r = ('raised', e)
+            out.append((True, 'fortran', 0.0, s.rjust(24), r))
+        return out
+    callers.append({'name': 't2listing.read_table_line_TOUGH2', 'family': 'fortran-blank-0', 'batch': batch_line})
+    return callers
+
+
+def pair_caller_names(tier):
+    return _PAIR_NAMES
+
+
+_PAIR_NAMES = (['fortran_float(s)', 'fortran_float(s,None)', 'fortran_float(s,object)', 'fortran_float(s,blank_value=-1.5)',
+                'fortran_int(s)', 'fortran_int(s,None)', 'fortran_int(s,object)', 'fortran_int(s,blank_value=-9)',
+                'fortran_read_float', 'fortran_read_int', 'fortran_read_float(blank_value=2.5)', 'fortran_read_int(blank_value=3)',
+                'default_read_float', 'default_read_int'] +
+               ["%s_read_function[%r]" % (tn, typ) for tn in ('default', 'fortran', 'third') for typ in 'efgd'] +
+               ['parse_string(%s table,%s readers)' % (sn, tn) for sn in ('own', 't2incon', 't2data', 'mulgrid')
+                for tn in ('default', 'fortran', 'third')] +
+               ['t2incon(filename,%s)' % tn for tn in ('default', 'fortran', 'default-argument')] +
+               ['t2historyfile(FOFT)', 't2listing.read_table_line_TOUGH2'])
+
+
+def pair_child(first, files):
+    """Runs in a forked child.  -> (violations [(sig, what)], evaluations, ordered pairs of callers run)."""
+    callers = make_callers(files)
+    names = [c['name'] for c in callers]
+    if names != list(_PAIR_NAMES):
+        raise core.HarnessError('caller table differs from its declaration')
+    A = callers[names.index(first)]
+    viol, n, pairs = [], 0, 0
+    memo = {}
+
+    def run(c, prev):
+        k = 0
+        for idx, (real, mode, bv, cell, r) in enumerate(c['batch']()):
+            k += 1
+            cls = file_class(cell) if real else file_class_int(cell)
+            if r[0] == 'raised':
+                viol.append(('C16|%s|raises-%s|%s|after=%s' % (c['name'], type(r[1]).__name__, cls, prev),
+                             '%s on %r raised %r (read just before by: %s)' % (c['name'], cell, r[1], prev)))
+                continue
+            got = r[1]
+            j = judge_caller(real, mode, bv, cell, got)
+            if j is not None:
+                viol.append(('C16|%s|%s|%s|after=%s' % (c['name'], j[0], cls, prev),
+                             '%s reads %r as %r, expected %s (the same text was read just before by: %s)'
+                             % (c['name'], cell, got, j[1], prev)))
+            key = (c['name'], idx)
+            cg = 'blank-value' if (got is bv and bv is not None) else canon(got)
+            if key in memo and memo[key] != cg:
+                viol.append(('C16|%s|not-repeatable|%s|after=%s' % (c['name'], cls, prev),
+                             '%s reads %r as %s now and as %s earlier in the same process (in between: %s)'
+                             % (c['name'], cell, cg, memo[key], prev)))
+            memo.setdefault(key, cg)
+        return k
+
+    n += run(A, 'nothing')
+    for B in callers:
+        n += run(B, A['family'] if B is not A else A['family'] + '(itself)')
+        n += run(A, B['family'])
+        pairs += 2
+    return viol, n, pairs
+
+
+def pair_route(first, tier):
+    d = os.path.join(core.scratch(), 'c16_pair_%d' % _PAIR_NAMES.index(first))
+    os.makedirs(d, exist_ok=True)
+    files = pair_files(tier, d)
+    try:
+        st, res = in_child(pair_child, first, files)
+    finally:
+        import shutil
+        shutil.rmtree(d, ignore_errors=True)
+    if st != 'ok':
+        return [('C16|pairs-of-callers|child-failed|first=%s' % first, 'the child process failed: %s' % res)], 0, 0
+    return res
+
+
+def run_P(first, tier, rec):
+    viol, n, pairs = pair_route(first, tier)
+    for sig, what in viol:
+        rec.violation(sig, what, {'kind': 'pair', 'first': first, 'tier': tier, 'sig': sig})
+    rec.bulk(n, set(hash(('P', first, k)) for k in range(pairs)), outcome='caller-pair')
+    rec.count('caller_pairs_ordered', pairs)
+    rec.count('caller_pair_readings', n)
+    if first == 'default_read_float':
+        rec.sample({'first_caller': first, 'callers': len(_PAIR_NAMES), 'texts': len(pair_texts(tier)), 'ordered_pairs': pairs})
+
+
+# ---------------------------------------------------------------------------------------------------------
 # H: the readers as the listing reader uses them for the results header of an AUTOUGH2 listing
 # (' OUTPUT AFTER<I4 steps> TIME STEPS <time> SECONDS').  The header lines of one result set of a shipped listing are
 # rewritten with Fortran renderings of the step (incl. overflow asterisks, blanks) and of the time; the listing must
@@ -1156,6 +1557,8 @@ def run_unit(unit, tier, rec):
         run_E(list(unit[1]), tier, rec)
     elif kind == 'F':
         run_F(tier, rec)
+    elif kind == 'E2':
+        run_E2(unit[1], tier, rec)
     elif kind == 'I':
         run_I(tier, rec)
     elif kind == 'S':
@@ -1170,6 +1573,8 @@ def run_unit(unit, tier, rec):
         run_H(unit[1], tier, rec)
     elif kind == 'HF':
         run_HF(tier, rec)
+    elif kind == 'P':
+        run_P(unit[1], tier, rec)
     else:
         raise core.HarnessError('unknown unit %r' % (unit,))
 
@@ -1180,6 +1585,8 @@ def finalize(rec, tier):
                            'style': 'crossed (all distinct texts of 96 option combinations)',
                            'blank_placement': 'every single gap crossed; multiple blanks bounded to padding and 4 combined placements '
                                               '(integers: every subset of gaps)',
+                           'two_blanks': 'every pair of gaps crossed on the boundary exponent set',
+                           'caller_history': 'every ordered pair of 43 entry points crossed with every text of the history set; depth 2 (A, B, A)',
                            'strings': 'crossed to the length bound', 'replacement': 'every position x every letter, one at a time'}}
 
 
@@ -1190,6 +1597,9 @@ def replay(case):
         return history_case(case['texts'])
     if case.get('kind') == 'listing-header':
         return header_case(case['set'], case['step_text'], case['time_text'])
+    if case.get('kind') == 'pair':
+        viol, n, pairs = pair_route(case['first'], case['tier'])
+        return [(sig, what) for sig, what in viol if sig == case.get('sig', sig)]
     if case.get('kind') == 'file':
         viol, n, keys = file_route(case['order'], case['tier'])
         return [(sig, what) for sig, what in viol if sig == case.get('sig', sig)]
